@@ -753,18 +753,6 @@ class Compiler:
                 state,
             )
 
-        # Apply session differences if any
-        if (
-            request.modaliases is not None
-            and state.current_tx().get_modaliases() != request.modaliases
-        ):
-            state.current_tx().update_modaliases(request.modaliases)
-        if (
-            (session_config := request.session_config) is not None
-            and state.current_tx().get_session_config() != session_config
-        ):
-            state.current_tx().update_session_config(session_config)
-
         if (
             expect_rollback and
             state.current_tx().id != txid and
@@ -775,6 +763,21 @@ class Compiler:
             return self._try_compile_rollback(request.source)[0], state
         else:
             state.sync_tx(txid)
+
+        # Apply session differences if any.  This has to follow sync_tx():
+        # re-synchronising to a savepoint replaces the current state, and
+        # the request's aliases and config must apply to the state the
+        # statement is compiled in.
+        if (
+            request.modaliases is not None
+            and state.current_tx().get_modaliases() != request.modaliases
+        ):
+            state.current_tx().update_modaliases(request.modaliases)
+        if (
+            (session_config := request.session_config) is not None
+            and state.current_tx().get_session_config() != session_config
+        ):
+            state.current_tx().update_session_config(session_config)
 
         ctx = CompileContext(
             compiler_state=self.state,
